@@ -131,10 +131,14 @@ KINDS = {
 # List[EVEN]: items judged by a user validator (a callback that can be made to raise); used by C04 only
 KINDS["evens"] = dict(name="evens", ann="List[EVEN]", conf=[["list", []], ["list", [0]], ["list", [2, 4]]], bad=[["list", [3]]],
                       mut="[2]", mut_spec=["list", [2]], item="even", items=[0, 2, 4], bad_items=[3])
+# Dict[str, Any] that may hold a value refusing to be copied (used by C01 / C04 only)
+KINDS["resources"] = dict(name="resources", ann="Dict[str, Any]", conf=[["dict", []], ["dict", [["a", 1]]], ["dict", [["a", ["Uncopyable"]], ["b", ["list", [1]]]]]],
+                          bad=[5], mut="{'a': [1]}", mut_spec=["dict", [["a", ["list", [1]]]]], item="resource", keys=["a", "b"], bad_keys=[1],
+                          items=[1, ["Uncopyable"]], bad_items=[])
 SCALAR_KINDS = ["int", "str", "float", "optint", "union", "literal", "bounded", "even"]
 COLLECTION_KINDS = ["nums", "words", "lits", "grids", "scores", "tags", "labels", "kids", "pairs", "units", "parts", "links", "marks"]
 SEQ_KINDS = ["nums", "words", "lits", "grids", "kids", "fkids", "units", "links", "evens"]
-MAP_KINDS = ["scores", "pairs", "parts"]
+MAP_KINDS = ["scores", "pairs", "parts", "resources"]
 SET_KINDS = ["tags", "labels", "marks"]
 ALL_KINDS = SCALAR_KINDS + COLLECTION_KINDS[:7] + ["leaf"] + COLLECTION_KINDS[7:]
 DEFAULT_MODES = ["none", "lit", "mut", "attr_default", "attr_factory", "field_default", "field_factory"]
@@ -215,6 +219,13 @@ class FLeaf:
 
 Leaf(); Keyed("w"); FLeaf()
 
+class Uncopyable:
+    """like a lock: refuses to be copied"""
+    def __deepcopy__(self, memo):
+        raise TypeError("cannot pickle 'Uncopyable' object")
+    def __repr__(self):
+        return "Uncopyable()"
+
 # registries consulted by "lookup" preparers (a preparer resolving a name to an EXISTING shared object)
 TABLE = {"tbl": Leaf(x=5, ys=[5])}
 FTABLE = {"tbl": FLeaf(x=5, ys=[5])}
@@ -272,6 +283,14 @@ def class_source(rec):
                 base = default_spec(a["kind"], a.get("default", "none"))
                 raw = K.get("mut", K.get("lit", "MISSING")) if a.get("default", "none") != "none" else "MISSING"
                 src = f" = Attr(default={raw}, invalidated_by={list(inv)!r})"
+            if a.get("prop"):
+                # the attribute is served by a (cached, overridable) spec_property: what is stored for it is an override or a cache
+                out.append(f"    {n}: {K['ann']}")
+                out.append(f"    @spec_property(cache={a['prop'] == 'cached'!r}, overridable=True)")
+                out.append(f"    def {n}(self):")
+                out.append(f"        CB.hit('getter')")
+                out.append(f"        return {K.get('mut', K.get('lit'))}")
+                continue
             out.append(f"    {n}: {K['ann']}{src}")
         for a in (alist if preparers_part else []):
             K = KINDS[a["kind"]]
@@ -293,7 +312,10 @@ def class_source(rec):
                 out.append(f"    def _prepare_{K['item']}(self, value):")
                 out.append(f"        CB.hit('prepare_item_{n}')")
                 out.append(f"        return ITEM_PREPARERS[{a['kind']!r}](value)")
-        if with_hooks and o.get("post_init"):
+        if with_hooks and o.get("post_init_private"):
+            # unmanaged mutable state hanging off the instance (copies must not share it either)
+            out += ["    def __post_init__(self):", "        CB.hit('post_init')", "        self._priv = [1, [2]]"]
+        elif with_hooks and o.get("post_init"):
             out += ["    def __post_init__(self):", "        CB.hit('post_init')"]
         if with_hooks and o.get("post_copy"):
             out += ["    def __post_copy__(self):", "        CB.hit('post_copy')"]
@@ -449,7 +471,10 @@ class Env:
                 base = ns.get(rec["name"] + "Base")
                 if base is not None:
                     try:
+                        import copy as _copy
+
                         b = base()
+                        _copy.deepcopy(b)
                         b.reset()
                         for n in list(base.__spec_class__.attrs):
                             getattr(b, "reset_" + n)()
@@ -489,6 +514,8 @@ class Env:
                 return self.KeyedList[self.Keyed, str]([self.mk(x) for x in spec[1]])
             if tag == "KeyedSet":
                 return self.KeyedSet[self.Keyed, str]([self.mk(x) for x in spec[1]])
+            if tag == "Uncopyable":
+                return self.ns["Uncopyable"]()
             if tag == "KeyedSetK":
                 # a user key function (a callback that can be made to raise at any of its invocations)
                 return self.KeyedSet[self.Keyed, str]([self.mk(x) for x in spec[1]], key=_cb_key)
@@ -667,6 +694,18 @@ def validated_item_records():
     return [single("evens", "mut"), composite("CompEvens", [("int", "lit"), ("evens", "mut")])]
 
 
+def property_served_records():
+    return [
+        {"name": "PropNums", "attrs": [{"kind": "nums", "default": "none", "prop": "cached"}, {"kind": "int", "default": "lit"}], "opts": {}},
+        {"name": "PropScores", "attrs": [{"kind": "scores", "default": "none", "prop": "cached"}, {"kind": "int", "default": "lit"}], "opts": {}},
+        {"name": "PropKidsUncached", "attrs": [{"kind": "kids", "default": "none", "prop": "uncached"}], "opts": {}},
+    ]
+
+
+def uncopyable_records():
+    return [single("resources", "mut"), composite("CompRes", [("int", "lit"), ("resources", "none"), ("nums", "mut")])]
+
+
 def policy_inheritance_records():
     """copy policy / frozen-ness that a spec subclass inherits without restating it, and an attribute-level opt-out"""
     return [
@@ -688,7 +727,16 @@ def base_first_records():
         # the owner declares NO default; the plain subclass gives the attribute its first one
         single("nums", "none", inherit="plain_sub_redefault", base_first=True),
         single("leaf", "none", inherit="plain_sub_redefault", base_first=True),
+        # the subclass ADDS attributes: whatever was worked out for the parent does not describe them
+        {"name": "BaseFirstAdds", "attrs": [{"kind": "int", "default": "lit"}, {"kind": "nums", "default": "mut"}, {"kind": "kids", "default": "mut"}],
+         "opts": {"inherit": "spec_sub_add", "base_first": True}},
+        {"name": "BaseFirstAddsLeaf", "attrs": [{"kind": "nums", "default": "mut"}, {"kind": "leaf", "default": "mut"}],
+         "opts": {"inherit": "spec_sub_add", "base_first": True}},
     ]
+
+
+def private_state_records():
+    return [single("nums", "mut", post_init_private=True), composite("CompPriv", [("int", "lit"), ("leaf", "mut")], post_init_private=True)]
 
 
 def reprepare_records():
